@@ -8,7 +8,10 @@ import pyais
 from . import gen, impl
 
 MSG_CLASSES = ['MessageType1', 'MessageType5', 'MessageType18', 'MessageType24PartA', 'MessageType24PartB',
-               'MessageType21', 'MessageType27', 'MessageType9', 'MessageType19', 'MessageType3', 'MessageType4']
+               'MessageType21', 'MessageType27', 'MessageType9', 'MessageType19', 'MessageType3', 'MessageType4',
+               # types that carry none or few of the tracked attributes (addressed messages, binary data, acks)
+               'MessageType6', 'MessageType12', 'MessageType7', 'MessageType10', 'MessageType14', 'MessageType16',
+               'MessageType22Broadcast', 'MessageType23', 'MessageType25AddressedStructured', 'MessageType8']
 
 
 def message_line(rng, cname, mmsi):
@@ -25,7 +28,9 @@ def make_messages(rng, mmsis, per=3):
     for m in mmsis:
         pool[m] = []
         for cname in rng.sample(MSG_CLASSES, per):
-            bits = gen.payload_bits(rng, cname, overrides={8: gen.bits_of_int(m, 30)})
+            cls = gen.concrete_classes()[cname]
+            full = gen.total_width(cls)
+            bits = gen.payload_bits(rng, cname, length=min(full, 420), overrides={8: gen.bits_of_int(m, 30)})
             payload, fill = gen.armor(bits)
             if len(payload) > 200:
                 continue
@@ -37,9 +42,10 @@ def msg_attrs(line):
     """the attributes a message carries (non-None AISTrack fields), canonical"""
     m = pyais.decode(line)
     out = {}
+    fields = m.asdict()         # the message's own fields (what it carries), not whatever attributes it may have
     for n in impl.TRACK_ATTRS:
-        if hasattr(m, n) and getattr(m, n) is not None:
-            out[n] = impl.canon_val(getattr(m, n))
+        if n in fields and fields[n] is not None:
+            out[n] = impl.canon_val(fields[n])
     return int(m.mmsi), out
 
 
